@@ -51,7 +51,7 @@ type Contract struct {
 var clauseKeywords = map[string]bool{
 	"func": true, "mode": true, "props": true, "trusted": true, "requires": true, "ensures": true,
 	"assigns": true, "nopanic": true, "pure": true, "loop": true, "invariant": true, "decreases": true,
-	"note": true, "funcfield": true, "iface": true, "global": true, "let": true, "oracle": true, "covers": true,
+	"note": true, "funcfield": true, "iface": true, "global": true, "let": true, "oracle": true, "covers": true, "def": true,
 }
 
 // parseContractFile reads //@ lines. pkgPath is the import path of the
@@ -68,6 +68,16 @@ func parseContractFile(path, pkgPath string) ([]*Contract, error) {
 func parseContractText(text, path, pkgPath string) ([]*Contract, error) {
 	return parseContractLines(bufio.NewScanner(strings.NewReader(text)), path, pkgPath)
 }
+
+// Def is a file-level parameterised abbreviation: //@ def name(a, b) = expr
+type Def struct {
+	Name   string
+	Params []string
+	Body   Expr
+}
+
+// Defs collected while parsing (global namespace).
+var globalDefs = map[string]*Def{}
 
 type rawClause struct {
 	kw   string
@@ -119,6 +129,27 @@ func parseContractLines(sc *bufio.Scanner, path, pkgPath string) ([]*Contract, e
 		return &Clause{Src: rc.text, E: e, File: path, Line: rc.line}, nil
 	}
 	for _, rc := range raws {
+		if rc.kw == "def" {
+			i := strings.Index(rc.text, "=")
+			lp := strings.Index(rc.text, "(")
+			rp := strings.Index(rc.text, ")")
+			if i < 0 || lp < 0 || rp < lp || rp > i {
+				return nil, fmt.Errorf("%s:%d: def needs name(params) = expr", path, rc.line)
+			}
+			d := &Def{Name: strings.TrimSpace(rc.text[:lp])}
+			for _, prm := range strings.Split(rc.text[lp+1:rp], ",") {
+				if prm = strings.TrimSpace(prm); prm != "" {
+					d.Params = append(d.Params, prm)
+				}
+			}
+			e, err := parseExpr(rc.text[i+1:])
+			if err != nil {
+				return nil, fmt.Errorf("%s:%d: def: %v", path, rc.line, err)
+			}
+			d.Body = e
+			globalDefs[d.Name] = d
+			continue
+		}
 		if rc.kw == "func" {
 			cur = &Contract{Key: normKey(rc.text), PkgPath: pkgPath, Mode: "int", Loops: map[int]*LoopContract{}, File: path, Line: rc.line}
 			curLoop = nil
